@@ -1174,6 +1174,7 @@ static ares_status_t ares_uri_parse_hostport(ares_uri_t *uri, ares_buf_t *buf)
   unsigned char b;
   char          host[256];
   char          port[6];
+  int           portnum;
   size_t        len;
   ares_status_t status;
 
@@ -1246,7 +1247,13 @@ static ares_status_t ares_uri_parse_hostport(ares_uri_t *uri, ares_buf_t *buf)
     return ARES_EBADSTR;
   }
 
-  status = ares_uri_set_port(uri, (unsigned short)atoi(port));
+  /* At most 5 digits, it still needs to fit a port */
+  portnum = atoi(port);
+  if (portnum > 65535) {
+    return ARES_EBADSTR;
+  }
+
+  status = ares_uri_set_port(uri, (unsigned short)portnum);
   if (status != ARES_SUCCESS) {
     return status;
   }
